@@ -39,6 +39,8 @@ func main() {
 		os.Exit(cmdLemmas(os.Args[2:]))
 	case "sweep":
 		os.Exit(cmdSweep(os.Args[2:]))
+	case "coverage":
+		os.Exit(cmdCoverage())
 	case "specvectors":
 		v, err := load()
 		if err != nil {
@@ -190,4 +192,39 @@ func applyLeanStamp(sp *Specs) {
 			lm.Status = "lean-proved"
 		}
 	}
+}
+
+// cmdCoverage lists every function of the module with its status: under contract, inlined into a verified caller,
+// or untouched by any verification run.
+func cmdCoverage() int {
+	v, err := load()
+	if err != nil {
+		fmt.Println("ENGINE-ERROR:", err)
+		return 2
+	}
+	for n, fc := range v.specs.Funcs {
+		v.VerifyFunc(v.prog.Lookup(n), fc)
+	}
+	var rows []string
+	untouched := 0
+	for _, p := range v.prog.Pkgs {
+		for k := range p.Funcs {
+			q := p.Name + "." + k
+			st := "UNTOUCHED"
+			if _, ok := v.specs.Funcs[q]; ok {
+				st = "contract"
+			} else if inlinedFuncs[q] {
+				st = "inlined"
+			} else {
+				untouched++
+			}
+			rows = append(rows, fmt.Sprintf("%-10s %s", st, q))
+		}
+	}
+	sort.Strings(rows)
+	for _, r := range rows {
+		fmt.Println(r)
+	}
+	fmt.Printf("%d functions, %d untouched\n", len(rows), untouched)
+	return 0
 }
